@@ -63,6 +63,8 @@ pub struct Responder {
     pub received: Vec<(u64, SocketAddr, Parsed)>,
     pub announced: Vec<(u64, SocketAddr, Parsed)>,
     pub tid_counter: u32,
+    /// also list the requester itself among the closest nodes
+    pub name_requester: bool,
 }
 
 impl Responder {
@@ -82,6 +84,7 @@ impl Responder {
             received: vec![],
             announced: vec![],
             tid_counter: 0,
+            name_requester: false,
         }
     }
 
@@ -102,7 +105,7 @@ impl Responder {
                 let mut v: Vec<_> = self
                     .universe
                     .iter()
-                    .filter(|(_, a)| *a != self.addr && *a != from)
+                    .filter(|(_, a)| *a != self.addr && (*a != from || self.name_requester))
                     .cloned()
                     .collect();
                 v.sort_by_key(|(id, _)| xor_dist(id, target));
